@@ -363,15 +363,8 @@ func runC04(c *Ctx) {
 						if !ok {
 							return false
 						}
-						switch {
-						case cl.Common().IsInvoke() && cl.Common().Method.Name() == "WriteHeader":
-							k, ok := constInt(cl.Common().Args[0])
-							return ok && k >= 500
-						case callName(cl) == serverPath+".SendError":
-							k, ok := constInt(cl.Common().Args[1])
-							return ok && k >= 500
-						}
-						return false
+						k, ok := statusConstWritten(cl, 0)
+						return ok && k >= 500
 					}}
 					if h, _ := q.from(s, 0); h != nil {
 						ok = true
@@ -875,7 +868,7 @@ func runC04(c *Ctx) {
 				switch x := v.(type) {
 				case *ssa.Const:
 				case *ssa.MakeInterface:
-					if b, isB := x.X.Type().Underlying().(*types.Basic); isB && b.Info()&(types.IsString|types.IsBoolean|types.IsInteger) != 0 {
+					if typeAlwaysEncodable(x.X.Type(), 0) {
 						return
 					}
 					walk(x.X)
